@@ -738,10 +738,29 @@ class C04(Property):
                 pass
             finally:
                 sp.uninstall()
+        held = []
+
+        def start():
+            # a reader opens the destination just before the recorded save begins and keeps the descriptor
+            try:
+                held.append(open(dest, 'rb'))
+            except PermissionError:
+                held.append(None)           # not readable by this user: nothing to compare
+            except OSError:
+                pass
+            spy.install()
         try:
-            _NS['run_save'](fu, dest, case, spy.install)
+            _NS['run_save'](fu, dest, case, start)
         finally:
             spy.uninstall()
+            spy.held = None
+            if held and held[0] is None:
+                spy.held = 'unreadable'
+            elif held:
+                try:
+                    spy.held = held[0].read()
+                finally:
+                    held[0].close()
 
     @staticmethod
     def look(path):
@@ -753,6 +772,19 @@ class C04(Property):
             return b'?notreg'
         with open(path, 'rb') as fh:
             return fh.read()
+
+    def dir_letter(self, d, dest, case):
+        """what a listing of the directory shows of the part file's name: - absent, p present,
+        l present and a hard link to the destination's inode (the window between link and unlink)"""
+        try:
+            sp = os.lstat(os.path.join(d, self.pname(case)))
+        except OSError:
+            return '-'
+        try:
+            sd = os.lstat(dest)
+        except OSError:
+            return 'p'
+        return 'l' if (sp.st_ino, sp.st_dev) == (sd.st_ino, sd.st_dev) else 'p'
 
     _strace = None
 
@@ -866,6 +898,8 @@ class C04(Property):
                 obs['out'] = 'exc:' + exc_name(e)
             obs['events'] = spy.events()
             obs['calls'] = spy.calls()
+            hr = getattr(spy, 'held', None)
+            obs['held'] = '-' if old is None else ('o' if hr == old or hr == 'unreadable' else 'X')
             obs['fired'] = int(any(r.get('injected') for r in spy.log))
             obs['final'] = classify(old, new, self.look(dest))
             names = sorted(os.listdir(d))
@@ -903,6 +937,7 @@ class C04(Property):
                 plan = {f[0]: f[1] for f in (case.get('fault'), case.get('fault2')) if f} or None
                 # 2. the same save killed immediately before call k, k = 0..N (k = N: never killed)
                 kills_l = []
+                dirs_l = []
                 running = []
 
                 def drain():
@@ -910,6 +945,7 @@ class C04(Property):
                         os.waitpid(pid, 0)
                         pids.remove(pid)
                         kills_l.append(classify(old, new, self.look(destk)))
+                        dirs_l.append(self.dir_letter(dk, destk, case))
                         shutil.rmtree(dk, ignore_errors=True)
                     del running[:]
                 for k in (range(n_calls + 1) if kills else ()):
@@ -931,6 +967,7 @@ class C04(Property):
                         drain()
                 drain()
                 obs['kills'] = ''.join(kills_l)
+                obs['dirs'] = ''.join(dirs_l)
         except ChildDied:
             obs['out'] = 'exc:ProcessEnded'
         except CaseTimeout:
@@ -962,8 +999,9 @@ class C04(Property):
 
     def render(self, case, obs):
         # what a safe, feasible trace must give; the letters are the REAL kill outcomes
-        return 'safe=1 exec=ok proc=%s power=ok final=%s part=%d' % (
-            '-' if obs['kills'] is None else obs['kills'], obs['final'], obs['part'])
+        return 'safe=1 exec=ok proc=%s power=ok final=%s part=%d dirs=%s held=%s' % (
+            '-' if obs['kills'] is None else obs['kills'], obs['final'], obs['part'],
+            '-' if obs.get('dirs') is None else obs['dirs'], '-' if obs['kills'] is None else obs.get('held', '-'))
 
     # ------------------------------------------------------------------ oracle: C04 restated on trace + kills
     def oracle(self, case, obs):
